@@ -37,6 +37,7 @@ type Config struct {
 	ChangePoints int // prio: number of priority change points
 	ExpectSteps  int // prio: range in which change points are placed
 	StallPm      int // per scheduling decision: chance (per mille) that simulated time passes while runnable goroutines stay parked
+	LongStallMs  int `json:",omitempty"` // length of the one long stall of a run in ms (0 = 1200)
 	MaxSteps     int // abort the run (not a violation) after this many scheduler decisions
 	Horizon      time.Duration
 	Debug        bool
@@ -543,6 +544,8 @@ func (s *Sim) loop() {
 				if d > time.Second {
 					if s.longStall {
 						d = 3 * time.Millisecond
+					} else if s.Cfg.LongStallMs > 0 {
+						d = time.Duration(s.Cfg.LongStallMs) * time.Millisecond
 					}
 					s.longStall = true
 				}
